@@ -223,8 +223,10 @@ def rand_lines(rng, long_first=False, overlong=False):
     return lines
 
 
-def feature_ops(np, rng, feats, a, b, int_first=()):
-    """store_feature ops for events [a:b) of every feature, random order"""
+def feature_ops(np, rng, feats, a, b, int_first=(), partial_trace=False):
+    """store_feature ops for events [a:b) of every feature, random order;
+    the traces are stored by one or several calls with disjoint sets of trace
+    names (partial_trace: only a random non-empty subset of the names)"""
     from . import gen
     ops = []
     names = list(feats)
@@ -237,8 +239,15 @@ def feature_ops(np, rng, feats, a, b, int_first=()):
         elif name == "trace":
             keys = list(data.keys())
             rng.shuffle(keys)
-            ops.append(["trace", [gen.TRACE_LEN], 2,
-                        [[TID[k], data[k].desc(a, b)] for k in keys]])
+            if partial_trace:
+                keys = keys[:rng.randint(1, len(keys))]
+            ngroups = rng.randint(1, len(keys))
+            cuts = sorted(rng.sample(range(1, len(keys)), ngroups - 1))
+            for g0, g1 in zip([0] + cuts, cuts + [len(keys)]):
+                op = ["trace", [gen.TRACE_LEN], 2,
+                      [[TID[k], data[k].desc(a, b)] for k in keys[g0:g1]]]
+                # later groups go anywhere among the calls made so far
+                ops.insert(rng.randint(0, len(ops)) if g0 else len(ops), op)
         elif name in ("image", "image_bg", "mask"):
             isbool = int(name == "mask" and data.kind == 1)
             if b - a == 1 and rng.random() < 0.5:
@@ -278,7 +287,8 @@ def make_features(np, rng, n, kinds, special, extra, names=None):
         full = make_features(np, rng, n, ALLKINDS, special,
                              [e for e in ALLEXTRA if e != "uintmask" or
                               "uintmask" in extra] +
-                             (["intscalar"] if "intscalar" in extra else []),
+                             (["intscalar"] if "intscalar" in extra else []) +
+                             [e for e in extra if e.startswith("tr:")],
                              None)
         for name in names:
             if name not in full and name in ("fl1_max", "fl1_npeaks"):
@@ -305,8 +315,10 @@ def make_features(np, rng, n, kinds, special, extra, names=None):
         feats["mask"] = Gen(4 if "uintmask" in extra else 1,
                             rng.randint(0, 999), npx)
     if "trace" in feats:
+        tkeys = list(feats["trace"]) + [e[3:] for e in extra
+                                        if e.startswith("tr:")]
         feats["trace"] = {k: Gen(2, rng.randint(0, 999), gen.TRACE_LEN)
-                          for k in feats["trace"]}
+                          for k in tkeys}
     if "vtmp" in extra:
         feats["vtmp"] = Gen(3, rng.randint(0, 999),
                             VTMP_SHAPE[0] * VTMP_SHAPE[1])
@@ -342,6 +354,8 @@ def gen_case(rng, thorough=False):
              if rng.random() < 0.3]
     extra += [e for e in ("qpi_amp", "qpi_oah", "qpi_pha")
               if rng.random() < 0.15]
+    extra += ["tr:" + t for t in ("fl2_raw", "fl2_median", "fl3_raw")
+              if rng.random() < 0.4]
     if rng.random() < 0.12:
         extra.append("intscalar")
     special = rng.random() < 0.6
@@ -374,7 +388,8 @@ def gen_case(rng, thorough=False):
                                     list(feats))
                 sel = [f for f in new if f in feats and rng.random() < 0.7]
                 sub = {f: new[f] for f in sel}
-                ops += feature_ops(np, rng, sub, 0, total)
+                ops += feature_ops(np, rng, sub, 0, total,
+                                   partial_trace=rng.random() < 0.5)
                 if rng.random() < 0.5:
                     ops.append(["log", rng.randrange(len(LOGS)),
                                 rand_lines(rng)])
